@@ -349,6 +349,11 @@ def _run_tplot(case, ctx):
         inside = numpy.arange(min(3, len(p)))
     lo = (t[inside[0] - 1] + t[inside[0]]) / 2 if inside[0] > 0 else t[0] * 0.9
     hi = (t[inside[-1]] + t[inside[-1] + 1]) / 2 if inside[-1] + 1 < len(p) else t[-1] * 1.1
+    if case["seed"] % 3 == 0:
+        # a window that is open towards zero thickness: lower limit 0 (every point below the upper limit, the first one included)
+        lo = r.choice([0, 0.0])
+        inside = numpy.arange(0, inside[-1] + 1)
+        ctx.count("tplot", "lower-limit-zero/%d-points" % min(len(inside), 4))
     from pgverif.core import _h
     dg = _h([tm, slope, intercept, style, len(p)])
     iso = _restore(_iso(p, n, ads, T, unit="mmol"), r)
@@ -426,6 +431,11 @@ def _run_alphas(case, ctx):
     variants = [("isotherm/BET", lambda: alpha_s(sample, reference_isotherm=ref, reference_area="BET", t_limits=(lo, hi)), ref_area),
                 ("isotherm/numeric-area", lambda: alpha_s(sample, reference_isotherm=ref, reference_area=float(ref_area), t_limits=(lo, hi)), ref_area),
                 ("raw", lambda: alpha_s_raw(n, ref_n, a_point, ref_area, rho, M, t_limits=(lo, hi)), ref_area)]
+    # the reference area may also be asked to come from the Langmuir analysis of the *reference*
+    from pygaps.characterisation.area_lang import area_langmuir
+    stl, ref_area_l = _call(lambda: area_langmuir(_iso(p_ref, nm * C * p_ref / ((1 - p_ref) * (1 - p_ref + C * p_ref)), ads, T, unit="mmol"))["area"])
+    if stl == "ok":
+        variants.append(("isotherm/langmuir-area", lambda: alpha_s(sample, reference_isotherm=ref, reference_area="langmuir", t_limits=(lo, hi)), ref_area_l))
     if scale == 1.0 and offset == 0.0:
         self_iso = _iso(p, ref_n, ads, T, unit="mmol")
         variants.append(("isotherm/against-itself", lambda: alpha_s(self_iso, reference_isotherm=self_iso, reference_area=float(ref_area), t_limits=(lo, hi)), ref_area))
